@@ -13,14 +13,37 @@ func fingerprintsQuery(ctx *shared.PlannerContext, matchers ...*labels.Matcher) 
 		labelNames []string
 		ops        []string
 		values     []string
+		absentOk   []*labels.Matcher
 	)
 	for _, _matcher := range matchers {
+		if _matcher.Matches("") {
+			// Prometheus reads a missing label as "": the label index has no row to witness that
+			absentOk = append(absentOk, _matcher)
+			continue
+		}
 		matcher := parser.LabelMatcher{Node: _matcher}
 		labelNames = append(labelNames, matcher.GetLabel())
 		ops = append(ops, matcher.GetOp())
 		values = append(values, matcher.GetVal())
 	}
 	plannerStreamSelect := logql_transpiler.NewStreamSelectPlanner(labelNames, ops, values)
-
-	return plannerStreamSelect.Process(ctx)
+	res, err := plannerStreamSelect.Process(ctx)
+	if err != nil {
+		return nil, err
+	}
+	// such a matcher only excludes the series that carry the label with a value it rejects
+	for _, _matcher := range absentOk {
+		inverse, err := _matcher.Inverse()
+		if err != nil {
+			return nil, err
+		}
+		matcher := parser.LabelMatcher{Node: inverse}
+		rejected, err := logql_transpiler.NewStreamSelectPlanner([]string{matcher.GetLabel()},
+			[]string{matcher.GetOp()}, []string{matcher.GetVal()}).Process(ctx)
+		if err != nil {
+			return nil, err
+		}
+		res.AndWhere(sql.Eq(sql.NewIn(sql.NewRawObject("fingerprint"), rejected), sql.NewIntVal(0)))
+	}
+	return res, nil
 }
